@@ -5,6 +5,7 @@ predicates on what the implementation reported.
 import Otel.Base.Wire
 import Otel.C02.Sys
 import Otel.C02.Spec
+import Otel.C02.Obs
 open Otel Otel.Wire Otel.C02
 
 namespace Otel.C02.Drv
@@ -208,6 +209,106 @@ def concCheck (rs : List ReaderCfg) (is : List InstCfg) (G rep A : Nat) (recs : 
     | _, _ => false
   (res.all (·.1) && flags, res.all (·.2) && flags)
 
+/-! ### `obs` lines: observable instruments, overlapping collections -/
+
+def parseOInst (s : String) : Option OInst :=
+  match s.toList with
+  | [n, k] =>
+    if n != 'i' && n != 'f' then none
+    else if k == 'C' then some ⟨n == 'f', .counter⟩
+    else if k == 'U' then some ⟨n == 'f', .updown⟩
+    else if k == 'G' then some ⟨n == 'f', .gauge⟩
+    else none
+  | _ => none
+
+def parseOOp : List String → Option OOp
+  | ["set", j, a, v] => do pure (.set (← parseNat j) (← parseNat a) (← parseInt v))
+  | ["unset", j, a] => do pure (.unset (← parseNat j) (← parseNat a))
+  | ["col", r] => do pure (.col (← parseNat r))
+  | ["ovl", r1, r2, j] => do pure (.ovl (← parseNat r1) (← parseNat r2) (← parseNat j))
+  | _ => none
+
+def renderOTag : Option (Temporality × Bool) → String
+  | some (tp, m) => renderTemp tp ++ (if m then "m" else "n")
+  | none => "gg"
+
+def renderORec (rc : Nat × Nat × List OStream) : String :=
+  let ss := rc.2.2.map fun (j, tag, pts) =>
+    s!"{j}{renderOTag tag}:" ++ ",".intercalate (pts.map fun (a, v) => s!"{a}={v}")
+  ";".intercalate (s!"{rc.1}:{rc.2.1}:ok" :: ss)
+
+/-- observed record: stamp, reader, ok, streams (instrument, tag string, points) -/
+structure ObsRec where
+  op : Nat
+  reader : Nat
+  ok : Bool
+  streams : List (Nat × String × List (Attr × Int))
+
+def parseObsStream (s : String) : Option (Nat × String × List (Attr × Int)) :=
+  match s.splitOn ":" with
+  | [hd, pts] =>
+    match hd.toList.reverse with
+    | m :: t :: jr => do
+      let j ← parseNat (String.ofList jr.reverse)
+      let ps ← if pts.isEmpty then some [] else (pts.splitOn ",").mapM parsePoint
+      pure (j, String.ofList [t, m], ps)
+    | _ => none
+  | _ => none
+
+def parseObsRec (s : String) : Option ObsRec :=
+  match s.splitOn ";" with
+  | hd :: streams =>
+    match hd.splitOn ":" with
+    | [i, r, st] => do
+      let ok ← if st == "ok" then some true else if st == "err" then some false else none
+      pure { op := ← parseNat i, reader := ← parseNat r, ok := ok, streams := ← streams.mapM parseObsStream }
+    | _ => none
+  | [] => none
+
+def tableAt (ops : List OOp) (i : Nat) : Table :=
+  (ops.take i).foldl (fun tb op =>
+    match op with
+    | .set j a v => (tb.filter fun o => !(o.1 == j && o.2.1 == a)) ++ [(j, a, v)]
+    | .unset j a => tb.filter fun o => !(o.1 == j && o.2.1 == a)
+    | _ => tb) []
+
+/-- the oracle for observable instruments: every collection of reader X reports exactly what X's callbacks observed
+during it — for every instrument, with X's own temporality (delta: minus what X itself observed in its preceding
+collection) — whatever the other readers did in the meantime -/
+def obsOracle (rs : List (Temporality × Temporality)) (is : List OInst) (ops : List OOp) (recs : List ObsRec) : Bool :=
+  (List.range recs.length).all fun k =>
+    match recs[k]? with
+    | none => false
+    | some rc =>
+      rc.ok &&
+      match rs[rc.reader]? with
+      | none => false
+      | some rcfg =>
+        let table := tableAt ops rc.op
+        let prevTable := match ((recs.take k).filter fun r => r.reader == rc.reader).getLast? with
+          | some p => tableAt ops p.op
+          | none => []
+        rc.streams.all (fun st => decide (st.1 < is.length)) &&
+        (List.range is.length).all fun j =>
+          match is[j]? with
+          | none => false
+          | some ic =>
+            let stream := rc.streams.find? (·.1 == j)
+            let report := match stream with | some st => st.2.2 | none => []
+            let observed := Spec.observedOf table j
+            let tp := match ic.kind with | .updown => rcfg.2 | _ => rcfg.1
+            let tagOk := match stream with
+              | none => true
+              | some st => st.2.1 == (match ic.kind with
+                  | .gauge => "gg"
+                  | .counter => renderTemp tp ++ "m"
+                  | .updown => renderTemp tp ++ "n")
+            tagOk &&
+            (match ic.kind, tp with
+             | .gauge, _ => Spec.obsExact observed report
+             | _, .cumulative => Spec.obsExact observed report
+             | _, .delta => Spec.obsDelta (Spec.observedOf prevTable j) observed report)
+
 def tagIf (b : Bool) (t : String) : List String := if b then [t] else []
 
 def stepLine (_ : Unit) (toks : List String) : Unit × Option Verdict :=
@@ -243,6 +344,27 @@ def stepLine (_ : Unit) (toks : List String) : Unit × Option Verdict :=
                nontrivial := model.any (fun rc => !rc.streams.isEmpty),
                branches := if tags.isEmpty then "-" else ",".intercalate tags,
                model := " ".intercalate mstr }
+    ((), r)
+  | "obs" :: _ :: rstr :: istr :: rest =>
+    let r : Option Verdict := do
+      let rcs ← (rstr.splitOn ",").mapM parseReader
+      let rs := rcs.map fun rc => (rc.tc, rc.tu)
+      let is ← (istr.splitOn ",").mapM parseOInst
+      let ops ← (splitBar rest).mapM parseOOp
+      let model := (OSys.run rs is ops).recs
+      let mstr := model.map renderORec
+      match obs.mapM parseObsRec with
+      | none => pure { agree := false, spec := "FAIL", nontrivial := false, branches := "unparsed-observation", model := " ".intercalate mstr }
+      | some recs =>
+        let spec := obsOracle rs is ops recs
+        let overlap := ops.any fun op => match op with | .ovl r1 r2 j => r1 != r2 && j < is.length | _ => false
+        let tags := ["observable"] ++ tagIf overlap "overlapping-collections" ++
+          tagIf (model.any fun rc => rc.2.2.any fun st => match st.2.1 with | some (.delta, _) => true | _ => false) "delta" ++
+          tagIf (model.any fun rc => rc.2.2.any fun st => match st.2.1 with | some (.cumulative, _) => true | _ => false) "cumulative" ++
+          tagIf (model.any fun rc => rc.2.2.any fun st => st.2.1.isNone) "gauge"
+        pure { agree := mstr == obs, spec := if spec then "ok" else "FAIL",
+               nontrivial := overlap && model.any (fun rc => !rc.2.2.isEmpty),
+               branches := ",".intercalate tags, model := " ".intercalate mstr }
     ((), r)
   | ["conc", _, rstr, istr, g, rep, a, _] =>
     let r : Option Verdict := do
